@@ -14,7 +14,7 @@ CHECKS = {
          "After every step get_blockchain_info (hash, height, timestamp, difficulty), unfiltered get_utxos tips, get_balance, get_block_headers and newly observed fee percentiles are compared with the model's heaviest chain (ties: longer, then first received).",
          "Difficulties via the repository's mock_difficulty feature; mainnet/testnet blocks pushed without header validation as the repository's tests do."),
  "C03": ("history invariants judged by a reference stability rule over generated histories and long chains",
-         "Every observed anchor move is judged on the tree as it was before the move (never early, never withheld, on the served chain, exact live set, append-only stable prefix, served stable headers); long chains of 360-520 blocks exercise the testnet/regtest depth escape.",
+         "Every observed anchor move is judged on the tree as it was before the move (never early, never withheld, on the served chain, exact live set, append-only stable prefix, served stable headers); long chains of 360-520 blocks (with competing forks and nested heavy short branches) exercise the testnet/regtest depth escape.",
          "Ambiguities of the statement (runner-up, .5 rounding of the bound) handled as a band: accept either reading, demand only both."),
  "C04": ("model-based differential over (history, c, address): stability-count cut decides tip and content",
          "For every c in 0..=len+2 the answer must name the model's cut block and equal the model ledger there; too-large c must be an explicit error; fork-free height formula.",
@@ -32,7 +32,7 @@ CHECKS = {
          "Snapshot before ingestion == snapshot after every paused round; no fetch / no processing while paused; rounds bounded; sliced vs unsliced twin final state and bookkeeping identical; model oracles at pause points; thorough enumerates all compositions of an 8-operation block.",
          "Lazy fee mode (stored percentiles depend on the heartbeat in which a tip is first seen)."),
  "C09": ("upgrade injection at generated message boundaries with twin runs under a request-deterministic block source",
-         "Snapshot identical across pre_upgrade/post_upgrade, tree identical, fetch state reset, exact config delta with an argument; twin without upgrades: equal sequences of distinct observable states and equal final state; next request initial; syncing completes within a bound.",
+         "Snapshot identical across pre_upgrade/post_upgrade, tree identical, fetch state reset, exact config delta with an argument; twin without upgrades: equal sequences of distinct observable states and equal final state; next request initial; syncing completes within a bound; fee percentiles after an upgrade follow the nearest-rank model (C15's oracle).",
          "Mid-fetch = between pages/before processing; utxos_length checked at the upgrade itself (known finding F6) and excluded from twin comparison."),
  "C10": ("generated response contents (valid/duplicate/orphan/garbage/mutated blocks and announced headers) judged by an independent admission predicate",
          "Tree after processing = previous tree + admitted prefix; exactly one error counter +1 iff refused; later blocks dropped; all model query oracles and bookkeeping exactness still hold; heartbeat never traps. A libFuzzer target (fuzz/block_bytes) covers raw bytes in the thorough tier.",
@@ -41,16 +41,16 @@ CHECKS = {
          "Required target (256-bit) and timestamp rule compared on synthetic chains around 2016 boundaries on mainnet/testnet4/regtest; regtest candidates with each field perturbed: accepted iff all five clauses.",
          "Acceptance of mined mainnet/testnet headers is not executed end to end (2^32 work)."),
  "C12": ("generated blocks and merkle-preserving duplication mutations against an own merkle/uniqueness oracle",
-         "accepted => sound; sound, witness-free, transaction-valid => accepted; every CVE-2012-2459-style duplication => rejected; validator directly and via the canister's insert path.",
+         "accepted => sound; sound, witness-free, transaction-valid => accepted; every CVE-2012-2459-style duplication => rejected; validator directly and via the canister's insert path (also with the header announced first).",
          "One-directional for blocks carrying witness data."),
  "C13": ("generated reply scripts x hand-polled overlapping heartbeats (harness owns the await point) with request-log invariants and bounded liveness",
-         "At most one request outstanding; follow-ups consecutive; initial request after reject/upgrade/completion naming anchor + all other unstable blocks; split block stored bit-identically; no block applied twice; bounded liveness after faults stop.",
+         "At most one request outstanding; follow-ups consecutive; initial request after reject/upgrade/completion naming anchor + all other unstable blocks; split block stored bit-identically; no block applied twice (also when the source offers a processed block again); bounded liveness after faults stop.",
          "Well-behaved source domain; 'eventually' as a bound."),
  "C14": ("generated flag/network/announced-header states probed on every endpoint against an independent gating decision",
-         "refuse <=> api disabled or foreign network or (sync flag and highest announced header > best+2; send_transaction exempt); refusals have no effect; get_config/get_blockchain_info always answer.",
+         "refuse <=> api disabled or foreign network or (sync flag and highest announced header > best+2; send_transaction exempt); refusals have no effect; get_config/get_blockchain_info always answer; independent model of the announced headers (complete and paged replies, heartbeat and direct driver with per-block difficulties).",
          "The metrics endpoint cannot run natively and is not decided."),
  "C15": ("observation-time model of nearest-rank percentiles over generated fee-paying histories incl. >10 000 transactions",
-         "Same tip -> same value; new tip -> model percentiles (or previous if no transactions); 0 or 101 non-decreasing values; recomputation after upgrade equals the insertion-time cache.",
+         "Same tip -> same value; new tip -> model percentiles (or previous if no transactions); 0 or 101 non-decreasing values; recomputation after upgrade equals the insertion-time cache; eager mode through the real heartbeat.",
          "The anchor counts among the best chain's unstable blocks."),
  "C16": ("generated fee tables x calls x instruction counts x attached cycles against the published formula; exhaustive client-vs-canister table",
          "Accepted cycles from the mock ledger compared with base + min(floor(ins/10)*rate, maximum-base) etc.; refusal below maximum charges nothing; cdk cost_* >= canister default maximum for every network/endpoint.",
@@ -62,11 +62,20 @@ CHECKS = {
          "No trap, no headers, same status, body in {empty, canonical height object}; height only if an independent path lookup finds it; identical result under header/whitespace/member-order/unrelated-member variations; exported transform_* functions agree. A libFuzzer target (fuzz/transform) covers raw bodies in the thorough tier.",
          "Plain-number endpoints: only all-digit bodies have a height every reading agrees on."),
  "C19": ("generated transaction serialisations and byte mutations against a hand-written strict consensus parser; round-trip",
-         "Accepted iff exactly one serialised transaction: then counted and forwarded unchanged; otherwise MalformedTransaction/refusal with nothing forwarded or counted. A libFuzzer target (fuzz/send_tx) covers raw payloads in the thorough tier.",
+         "Accepted iff exactly one serialised transaction (whatever the sync state): then counted and forwarded unchanged; otherwise MalformedTransaction/refusal with nothing forwarded or counted. A libFuzzer target (fuzz/send_tx) covers raw payloads in the thorough tier.",
          "Payloads far below rust-bitcoin's 4 MB allocation guard."),
  "C20": ("abstract bookkeeping snapshot recomputed from the live tree after every step of generated histories",
-         "Block-cache keys = delta-map keys = live hashes; tx-out reference counts; tip depths; announced headers; plus every later query runs without a trap.",
+         "Block-cache keys = delta-map keys = live hashes; tx-out reference counts; tip depths; announced headers held = exactly the announced ones still needed (announcing scenarios of the direct driver); plus every later query runs without a trap.",
          "Heights inside the tx-out cache are not compared."),
+}
+
+CASE_IDS = {"C01", "C02", "C03", "C04", "C05", "C06", "C07", "C08", "C09", "C10", "C13", "C14", "C15", "C16", "C20"}
+CASE_CAMPAIGN = "; thorough tier adds coverage-guided fuzzing (libFuzzer target prop_case): inputs are serialised cases, a structure-aware mutator edits the operation/event sequence only with material drawn from the same proptest strategy, oracle = the same Property::run; a distilled corpus of earlier campaigns is replayed in every tier"
+BYTE_TARGET = {
+    "C06": "; byte-level libFuzzer target page_blob (raw page tokens)",
+    "C10": "; byte-level libFuzzer target block_bytes (raw response contents)",
+    "C18": "; byte-level libFuzzer target transform (raw HTTP bodies)",
+    "C19": "; byte-level libFuzzer target send_tx (raw payloads)",
 }
 
 def main():
@@ -83,7 +92,7 @@ def main():
             "engine": "vp",
             "level_claimed": {"category": "exploration", "text": text + " Generated-input search with an explicit oracle: a pass means the property held on the counted cases, not absence of violations.", "design_ref": f"DESIGN.md section 6 {pid}"},
             "level_note": note,
-            "technique": "property-based testing: " + tech,
+            "technique": "property-based testing: " + tech + (CASE_CAMPAIGN if pid in CASE_IDS else "") + (BYTE_TARGET.get(pid, "")),
         })
     m = {
         "version": 1,
@@ -97,7 +106,7 @@ def main():
         },
         "engines": [{
             "name": "vp", "path": "/verif/harness", "serves_properties": sorted(CHECKS),
-            "kind_free_text": "Rust binary linking the real canister / validation / watchdog crates natively; proptest 1.10 TestRunner per worker thread (16 workers, seeds derived from VERIF_SEED), reference models, shrinking, replay files, regression tier, known-findings file; libFuzzer targets under /verif/fuzz for the thorough tier of byte-level properties",
+            "kind_free_text": "Rust binary linking the real canister / validation / watchdog crates natively; proptest 1.10 TestRunner per worker thread (16 workers, seeds derived from VERIF_SEED), reference models, shrinking, replay files, regression tier, known-findings file; libFuzzer targets under /verif/fuzz for the thorough tier: four byte-level targets (C06 C10 C18 C19) and one generic structure-aware target over serialised cases (15 properties); crash artefacts are confirmed (and reduced) by the stable binary before a VIOLATION line is printed",
         }],
         "checks": checks,
         "notes": "KNOWN_FINDINGS.txt lists repaired defects (fixed:) and the one recorded finding (known: C09 F6). Regressions under /verif/regressions run first in every tier.",
